@@ -494,25 +494,94 @@ def click_position(prog, run, ci, f):
                 if isinstance(c, ast.Call) and self_attr(c.func) and c.func.attr in readers and readers[c.func.attr] - readers[nm]:
                     readers[nm] |= readers[c.func.attr]
                     changed = True
+    def reads_of(x):
+        """click attributes an expression reads when it is evaluated (directly / through helpers on self)"""
+        out = set()
+        for y in ast.walk(x):
+            if self_attr(y) and isinstance(y.ctx, ast.Load) and y.attr in cp:
+                out.add(y.attr)
+            elif isinstance(y, ast.Call) and self_attr(y.func) and readers.get(y.func.attr):
+                out |= readers[y.func.attr]
+        return out
+
+    def deferred_in(m):
+        """nodes of m that sit in a lambda / nested function: evaluated when that is called, not where it is written"""
+        inner = set()
+        for x in ast.walk(m.node):
+            if x is not m.node and isinstance(x, (ast.Lambda, ast.FunctionDef)):
+                for y in ast.walk(x):
+                    if y is not x:
+                        inner.add(id(y))
+        return inner
+
+    def verdicts(m, attr, called=None, depth=0):
+        """[(ok, node, method, kind)] for every read of self.<attr> that executing m leads to; `called` = {parameter: click attributes read
+        when that callable parameter is called}"""
+        called = dict(called or {})
+        out = []
+        inner = deferred_in(m)
+        local_l = set()
+        for x in ast.walk(m.node):
+            if isinstance(x, ast.Assign) and len(x.targets) == 1 and isinstance(x.targets[0], ast.Name) and isinstance(x.value, ast.Lambda) \
+                    and sum(1 for y in ast.walk(m.node) if isinstance(y, ast.Name) and isinstance(y.ctx, ast.Store) and y.id == x.targets[0].id) == 1:
+                local_l.add(id(x.value))
+                if attr in reads_of(x.value.body):
+                    called[x.targets[0].id] = True
+        for x in ast.walk(m.node):
+            if id(x) in inner:
+                continue
+            sub = None
+            if self_attr(x) and isinstance(x.ctx, ast.Load) and x.attr == attr:
+                pass
+            elif isinstance(x, ast.Call) and self_attr(x.func) and x.func.attr in ci.methods:
+                callee = ci.methods[x.func.attr]
+                # callables handed over: what they read is read where the callee calls them
+                cpos = [a.arg for a in callee.node.args.posonlyargs + callee.node.args.args][1:]
+                handed = {}
+                for k_, a_ in enumerate(x.args):
+                    if isinstance(a_, ast.Lambda) and k_ < len(cpos) and attr in reads_of(a_.body):
+                        handed[cpos[k_]] = True
+                for kw in x.keywords:
+                    if kw.arg and isinstance(kw.value, ast.Lambda) and attr in reads_of(kw.value.body):
+                        handed[kw.arg] = True
+                if attr not in readers.get(x.func.attr, ()) and not handed:
+                    continue
+                sub = (callee, handed)
+            elif isinstance(x, ast.Call) and isinstance(x.func, ast.Name) and called.get(x.func.id):
+                pass
+            else:
+                continue
+            kind, val = astq.dominating_attr_store(m, x, "self." + attr)
+            if kind == "value" and any(isinstance(y, ast.Attribute) and y.attr in ("xdata", "ydata") for y in ast.walk(val)):
+                out.append((True, x, m, kind))
+            elif sub is not None and depth < 4:
+                inner_v = verdicts(sub[0], attr, sub[1], depth + 1)
+                if kind == "maybe":
+                    inner_v = [(None if ok_ is False else ok_, n_, m_, k_) for ok_, n_, m_, k_ in inner_v]
+                out.extend(inner_v if inner_v else [(None, x, m, "not followed")])
+            else:
+                out.append((False if kind == "none" else None, x, m, kind))
+        # lambdas stored / passed anywhere else are not followed
+        for x in ast.walk(m.node):
+            if isinstance(x, ast.Lambda) and attr in reads_of(x.body) and id(x) not in local_l:
+                par = astq.parent_map(m.node).get(x)
+                if not (isinstance(par, (ast.Call, ast.keyword))):
+                    out.append((None, x, m, "callable kept for later"))
+                elif isinstance(par, ast.Call) and not (self_attr(par.func) and par.func.attr in ci.methods):
+                    out.append((None, x, m, "callable handed to a function this rule does not follow"))
+        return out
     n = 0
     for hname in ("on_click_SSI", "on_click_FDD"):
         h = ci.methods.get(hname)
         if h is None:
             continue
-        sites = []
-        for x in ast.walk(h.node):
-            if self_attr(x) and isinstance(x.ctx, ast.Load) and x.attr in cp:
-                sites.append((x, {x.attr}))
-            elif isinstance(x, ast.Call) and self_attr(x.func) and readers.get(x.func.attr):
-                sites.append((x, readers[x.func.attr]))
-        for node, attrs in sites:
-            for a in sorted(attrs):
-                kind, val = astq.dominating_attr_store(h, node, "self." + a)
-                ok = True if (kind == "value" and any(isinstance(y, ast.Attribute) and y.attr in ("xdata", "ydata") for y in ast.walk(val))) else (False if kind == "none" else None)
+        for a in sorted(cp):
+            for ok, node, m, kind in verdicts(h, a):
                 n += 1
                 run.ob("R-pick", h.qual, f"self.{a} read here is this click's position", ok,
-                       f"`{astq.src(node, 50)}` reads self.{a}" + ("" if ok else (": no store of this event's position precedes it on this path - it still holds the position of an earlier click"
-                                                                              if ok is False else ": a store of the position sits in another branch / loop")),
+                       f"`{astq.src(node, 50)}`" + (f" (in {m.node.name})" if m is not h else "") + f" reads self.{a}"
+                       + ("" if ok else (": no store of this event's position precedes it on this path - it still holds the position of an earlier click"
+                                         if ok is False else f": {kind if kind not in ('maybe',) else 'a store of the position sits in another branch / loop'}")),
                        witness=f"self.{a}:{kind}", file=f, node=node)
 
 
